@@ -90,6 +90,12 @@ CHECKS = {
             "are compared with the model through a guarded hook, difficulty / strains / performance are compared bitwise across the "
             "representations, and lazer rate mods / DifficultyAdjust against clock_rate / overrides on a grid.",
             "DESIGN.md 3/C08", "TLA+ model checking (TLC) of the accessor tables + hook-based replay + end-to-end differential"),
+    "C17": ("spec/AttrBuilder.tla + MC_AttrBuilder.tla; harness attrs-replay", "model_checking",
+            "hit_windows() and build() are transcribed in exact rational arithmetic (the function is case analysis over piecewise-linear "
+            "maps); TLC checks round trip, monotonicity, 1/rate scaling and HR >= none >= EZ on a grid of values, mods, clock rates, "
+            "modes and convert flags; the real outputs are compared with the model's rationals at every grid point, hit_windows() with "
+            "build(), and the AR / OD / HP / hit windows embedded in osu, taiko and catch difficulty attributes with the builder's output.",
+            "DESIGN.md 3/C17", "TLA+ model checking (TLC) in exact rationals + replay of every grid point"),
 }
 
 NOT_YET = {
